@@ -1490,7 +1490,10 @@ class FortranReaderBase:
                     label = int(s)
                 if not self._format.is_f77:
                     m = _CONSTRUCT_NAME_RE.match(line[6:])
-                    if m:
+                    if m and line[6:][m.end() :].strip():
+                        # (When nothing follows on this line, whether or not
+                        # this is a construct name is decided once any
+                        # continuation lines have been joined to it.)
                         name = m.group("name")
                         line = line[:6] + line[6:][m.end() :].lstrip()
                 if not line[6:].strip():
@@ -1578,7 +1581,12 @@ class FortranReaderBase:
                             message, startlineno + i, startlineno + i, location
                         )
                         logging.getLogger(__name__).warning(message)
-            return self.line_item("".join(lines), startlineno, endlineno, label, name)
+            line_content = "".join(lines)
+            if name is None and len(lines) > 1:
+                # The construct name (or the ':' that follows it) may be
+                # separated from the rest of the statement by a continuation.
+                name, line_content = extract_construct_name(line_content)
+            return self.line_item(line_content, startlineno, endlineno, label, name)
 
         # line is free format or fixed format with f2py directive (that
         # will be interpreted as free format line).
